@@ -172,6 +172,7 @@ impl Exec {
         } else {
             None
         };
+        ckb_shared::Shared::verif_set_freeze_limit(sc.freeze_limit.unwrap_or(u64::MAX));
         let node = Node::open(dir, w.consensus.clone(), sc.freezer, store_cfg)?;
         let mut delivered = Vec::new();
         let mut delivered_set = BTreeSet::new();
@@ -893,6 +894,15 @@ impl Exec {
                     }
                     if after < before {
                         self.viol("C10", "frozen_number_decreased", format!("{before} -> {after}"));
+                    }
+                    if let Some(limit) = self.sc.freeze_limit {
+                        // "at most the per-run limit, contiguous from the previous frozen height"
+                        if after > before.saturating_add(limit) {
+                            self.viol("C10", "pass_froze_more_than_limit", format!("{before} -> {after} with a per-pass limit of {limit}"));
+                        }
+                        if after == before + limit {
+                            self.res.probes.inc("freeze_pass_stopped_at_per_pass_limit");
+                        }
                     }
                     let (te, tn, ibd) = {
                         let snap = self.node.shared.snapshot();
